@@ -80,7 +80,7 @@ class FnIndex:
         self.src = open(path).read()
         self.entries = []  # (start_line, end_line, module, name, container)
         masked = ex.mask_source(self.src)
-        for m in re.finditer(r"(?m)^pub mod ([a-z_]+) \{$", masked):
+        for m in re.finditer(r"(?m)^pub mod ([a-z_0-9]+) \{$", masked):
             o = masked.find("{", m.start())
             mod = m.group(1)
             vo = masked.find("verus! {", o)
@@ -458,6 +458,13 @@ def main():
             if fq in per_fn and per_fn[fq]["success"] != ent["success"]:
                 unstable.append(fq)
     failures = [f for f in first["failures"] if f["fn"] and not f["fn"].startswith("~")]
+    for f in failures:
+        # e.g. a failed by(bit_vector) assertion is a separate query: the breakdown entry of the enclosing function may
+        # still say success, the diagnostic decides
+        if f["fn"] in per_fn:
+            per_fn[f["fn"]]["success"] = False
+        else:
+            per_fn[f["fn"]] = {"success": False, "time_ms": 0, "rlimit": 0, "verus_names": []}
     for fq, ent in iso_results.items():
         per_fn[fq] = {k: v for k, v in ent.items() if k not in ("failures", "cmd", "wall_s")}
         failures = [f for f in failures if f["fn"] != fq] + ent["failures"]
@@ -495,6 +502,9 @@ def main():
             undec.append((fq, "; ".join(sorted({f["message"] for f in msgs}))[:300]))
     for v in sec_viol:
         violations.append(v)
+    unattributed = [f for f in foreign if not f["fn"]]
+    if unattributed:
+        undec.append(("-", "error diagnostics that could not be attributed to a function: %s" % "; ".join(sorted({f["message"] for f in unattributed}))[:300]))
     expected_n = spec.get("expected_obligations")
     vac = []
     if not obligations:
